@@ -356,6 +356,14 @@ def random_cell_type(rng, gens, pw=0.35):
     return t
 
 
+def renamed_wrappers_program(j):
+    """a serde-renamed type referenced bare, under Option and under Option<Option<..>> in one crate (folder-mode shape of seeded C04_g)"""
+    return ('#[typeshare]\n#[serde(rename = "AlphaSettings%d")]\npub struct Settings { pub x: u8 }\n'
+            '#[typeshare]\npub struct Uses { pub a: Settings, pub b: Option<Settings>, #[serde(default)] pub c: Settings, pub d: Vec<Settings>, pub e: Option<Vec<Settings>>, pub f: Option<Option<Settings>> }\n'
+            '#[typeshare]\n#[serde(tag = "t", content = "c")]\npub enum One { A(Option<Settings>), B(Settings), C { g: Settings, h: Option<Settings> } }\n'
+            '#[typeshare]\npub type MaybeSettings = Option<Settings>;\n') % j
+
+
 def random_program(rng, k):
     nm = Namer()
     items = []
@@ -537,10 +545,18 @@ def run(chk):
         'Option<Option<T>> is `T | null | undefined` there and `content?: T | null` at a newtype payload (finding C04-ts-double-nonfield, repaired: its witness runs first and must pass)',
         'note (outside the quantifier): a Kotlin/Swift/Scala/Go/TS type override on an Option field keeps the marker suffix around the user text (Kotlin `Any = null`); overrides are not generated',
         'note (outside the quantifier): serde(default) on the field of a newtype variant is ignored by typeshare - and by serde_derive itself (deserialize_newtype_variant never consults it)']
-    chk.prepare(need_cli=False)
+    chk.prepare(need_cli=True)
     if not chk.harness_ok:
         return
     rng = chk.rng
+    if chk.cli_ok:
+        # folder-output mode against the same crates generated alone (lib/multi.py): optional markers and the types under them must
+        # not depend on the other crates of the run nor on the crate's import set (seeded C04_g)
+        import multi
+        nw = 12 if chk.tier == 'quick' else 150
+        wss = [[random_program(rng, 9000 + 10 * w + j).source() for j in range(rng.choice([2, 3]))] for w in range(nw)]
+        wss += [[renamed_wrappers_program(j) for j in range(2)] for _ in range(2)]
+        multi.independent_crates(chk, wss, multi.facet_optional, 'optional markers (C04)')
     judge_fixed_witness(chk)
     progs = [('fixedwitness', fixed_witness_program(), {l: dict(BASE_CFG.get(l, {})) for l in LANGS})]
     progs += [('matrix', matrix_program(b, k), {l: dict(BASE_CFG.get(l, {})) for l in LANGS}) for k, b in enumerate(BASES)]
